@@ -69,10 +69,11 @@ Edited  == -2          \* what a read that edits its result leaves
 ----------------------------------------------------------------------------
 (* Crossing the boundary                                                   *)
 Join(d, e) == IF d = "none" \/ d = e THEN e ELSE "both"
-\* cells hs cross in direction e with the contents they have in heap h
+\* cells hs cross in direction e with the contents they have in heap h; a cell that was already handed
+\* out keeps the content frozen the first time (handing it out again does not excuse a change)
 CrossAll(dr, fr, h, hs, e) ==
   [dir2 |-> [x \in Cells |-> IF x \in hs THEN Join(dr[x], e) ELSE dr[x]],
-   frz  |-> [x \in Cells |-> IF x \in hs THEN h[x] ELSE fr[x]]]
+   frz  |-> [x \in Cells |-> IF x \in hs /\ dr[x] \in {"none", "in"} THEN h[x] ELSE fr[x]]]
 
 Free == Cells \ used
 
